@@ -187,3 +187,22 @@ def size_thresholds(relpaths, lo=24, hi=1 << 15):
                 if f"{rel}:{n.lineno}" not in out.setdefault(v, []):
                     out[v].append(f"{rel}:{n.lineno}")
     return out
+
+
+QUANTIZER_FILES = [
+    "optimum/quanto/tensor/optimizers/absmax_optimizer.py", "optimum/quanto/tensor/optimizers/affine_optimizer.py", "optimum/quanto/tensor/optimizers/max_optimizer.py",
+    "optimum/quanto/tensor/optimizers/symmetric_optimizer.py", "optimum/quanto/tensor/optimizers/optimizer.py", "optimum/quanto/tensor/quantizers/symmetric.py",
+    "optimum/quanto/tensor/quantizers/affine.py", "optimum/quanto/tensor/qweight.py", "optimum/quanto/tensor/qactivation.py", "optimum/quanto/tensor/qbits/group.py",
+    "optimum/quanto/tensor/core.py", "optimum/quanto/tensor/qbytes.py",
+]
+
+
+def quantizer_threshold_shapes(hi=1024):
+    """2-D / 1-D shapes just above one and two multiples of every integer size threshold in the current source of the scale
+    optimizers, quantizers and grouping code (empty on the pinned tree); as element counts as well as dimension lengths."""
+    out = []
+    for L, where in sorted(size_thresholds(QUANTIZER_FILES, hi=hi).items()):
+        for s in ((L + 1, 2), (2, L + 1), (2 * L + 1, 1), (L // 2 + 1, 2), (2, L // 2 + 1)):
+            if s not in out:
+                out.append(s)
+    return out
